@@ -162,15 +162,16 @@ func GaloisElementsForPack(params ParameterProvider, logGap int) (galEls []uint6
 		panic(fmt.Errorf("cannot GaloisElementsForPack: logGap > logN || logGap < 0"))
 	}
 
-	galEls = make([]uint64, 0, logGap)
-	for i := 0; i < logGap; i++ {
-		galEls = append(galEls, p.GaloisElement(1<<i))
-	}
-
 	switch p.RingType() {
 	case ring.Standard:
-		if logGap == p.LogN() {
-			galEls = append(galEls, p.GaloisElementOrderTwoOrthogonalSubgroup())
+		// Pack(cts, logGap, ...) merges with X -> X^{-1} at step 0 and X -> X^{5^{2^{i-1}}} at step i, for LogN-logGap <= i < LogN
+		galEls = make([]uint64, 0, logGap)
+		for i := p.LogN() - logGap; i < p.LogN(); i++ {
+			if i == 0 {
+				galEls = append(galEls, p.GaloisElementOrderTwoOrthogonalSubgroup())
+			} else {
+				galEls = append(galEls, p.GaloisElement(1<<(i-1)))
+			}
 		}
 	default:
 		panic("cannot GaloisElementsForPack: invalid ring type")
